@@ -82,7 +82,17 @@ def _marksx_spec():
     return dict(nodes=nodes, marks=marks)
 
 
+def _note_spec():
+    """an inline atom that nevertheless has content (ProseMirror's footnote example): `is_atom` and `is_leaf` /
+    `is_text` come apart here, which no schema of the repository's tests exercises"""
+    s = _list_spec()
+    nodes = dict(s["nodes"])
+    nodes["footnote"] = {"group": "inline", "content": "text*", "inline": True, "atom": True}
+    return dict(nodes=nodes, marks=s["marks"])
+
+
 SPECS = {
+    "note": _note_spec,
     "basic": _basic_spec,
     "list": _list_spec,
     "strict": _strict_spec,
